@@ -357,9 +357,14 @@ func excludeToSpans(v *Version) (span, span, error) {
 	inf.setMajor(infinity)
 	inf.setMinor(infinity)
 	inf.setPatch(infinity)
-	s1, err := newSpan(zero, closed, lo, open)
-	if err != nil {
-		return span{}, span{}, err
+	// Nothing lies between 0.0.0 and an excluded prerelease of 0.0.0.
+	s1 := span{rank: empty}
+	if !lo.lessThan(zero) {
+		var err error
+		s1, err = newSpan(zero, closed, lo, open)
+		if err != nil {
+			return span{}, span{}, err
+		}
 	}
 	s2, err := newSpan(hi, open, inf, closed)
 	return s1, s2, err
